@@ -15,10 +15,10 @@ func init() {
 		DesignRef:      "DESIGN.md §5 C17",
 		Level:          "Decides only the frame, not the optimisations: the reference expression is compiled as ^(?s:…)$ from the tree parsed with Perl|DotNL (the same tree the optimisers inspect); in the compiled match function the prefix/suffix/contains pre-filters return only `false`, and every other return is the single set value's equality, the complete string matcher, or the reference regexp; the case-insensitive prefix path ends in the reference regexp; the set of matching values is stored only for case-sensitive sets and SetMatches returns a copy of it; the literal-alternation fast path is used only when it produced a matcher.",
 		Note:           "Trusted: go/packages, go/types, go/cfg; rule tables in checker/c17.go.",
-		Covers:         "model/labels: NewFastRegexMatcher, FastRegexMatcher.compileMatchStringFunction, FastRegexMatcher.MatchString, FastRegexMatcher.SetMatches.",
+		Covers:         "model/labels: NewFastRegexMatcher, FastRegexMatcher.compileMatchStringFunction, FastRegexMatcher.MatchString, FastRegexMatcher.SetMatches, containsStringMatcher.Matches, isSimpleConcatenationPattern and its element predicates, the contains loop of optimizeConcatRegex, every construction of trueMatcher.",
 		NotCover:       "that each optimiser (optimizeAlternatingLiterals, findSetMatches, optimizeConcatRegex, stringMatcherFromRegexp, equalMultiStringMapMatcher, toNormalisedLower) accepts exactly the language of its sub-expression — a language-equivalence question over runtime patterns, which is the substance of this property.",
 		Run:            runC17,
-		MinObligations: 12,
+		MinObligations: 28,
 	})
 }
 
@@ -111,4 +111,5 @@ func runC17(c *eng.Ctx) {
 		lf, okL := eng.Linear(csm.Info, as.Rhs[0])
 		return okL && (lf.String() == "+0" || lf.String() == "+1*pos +1")
 	})
+	runC17Concat(c)
 }
